@@ -414,6 +414,10 @@ class List(list, base.Symbolic, pg_typing.CustomTyping):
     # Replace an existing value.
     if index < len(self) and not should_insert:
       old_value = list.__getitem__(self, index)
+      if index < 0:
+        # Address the replaced item by its real position, so the new child's
+        # path and the reported update do not carry a negative index.
+        index += len(self)
       # Generates no update as old value is the same as the new value.
       if old_value is value:
         return None
